@@ -76,6 +76,76 @@ pub mod verif;
 /// Logging target for the file.
 const LOG_TARGET: &str = "litep2p::transport-manager";
 
+/// Verification hooks: re-exports of crate-private address-book items and thin wrappers around the
+/// private address-update functions of [`TransportManager`] for the external harness. Adds code only.
+#[cfg(feature = "verif")]
+pub mod verif {
+    pub use super::{
+        address::{scores, AddressRecord, AddressStore},
+        handle::TransportManagerHandle,
+        types::SupportedTransport,
+        TransportManager, TransportManagerBuilder,
+    };
+    use crate::{error::DialError, transport::Endpoint, types::ConnectionId, PeerId};
+    use multiaddr::Multiaddr;
+
+    impl TransportManager {
+        /// The handle owned by the manager (same peer map and listen addresses).
+        pub fn verif_handle(&self) -> TransportManagerHandle {
+            self.transport_manager_handle.clone()
+        }
+
+        /// Calls the private `update_address_on_dial_failure`.
+        pub fn verif_update_address_on_dial_failure(&mut self, address: Multiaddr, error: &DialError) {
+            self.update_address_on_dial_failure(address, error)
+        }
+
+        /// Calls the private `update_address_on_connection_established`.
+        pub fn verif_update_address_on_connection_established(
+            &mut self,
+            peer: PeerId,
+            address: Multiaddr,
+            listener: bool,
+        ) {
+            let connection_id = ConnectionId::from(0usize);
+            let endpoint = if listener {
+                Endpoint::listener(address, connection_id)
+            } else {
+                Endpoint::dialer(address, connection_id)
+            };
+            self.update_address_on_connection_established(peer, &endpoint)
+        }
+
+        /// Stored `(address, score)` pairs of `peer` (`None` if the peer is unknown), unordered.
+        pub fn verif_peer_addresses(&self, peer: &PeerId) -> Option<Vec<(Multiaddr, i32)>> {
+            self.peers.read().get(peer).map(|context| {
+                context
+                    .addresses
+                    .addresses
+                    .iter()
+                    .map(|(address, record)| (address.clone(), record.verif_score()))
+                    .collect()
+            })
+        }
+
+        /// The address selection made by `dial(peer)`: `AddressStore::addresses(limit)`.
+        pub fn verif_dial_addresses(&self, peer: &PeerId, limit: usize) -> Vec<Multiaddr> {
+            self.peers
+                .read()
+                .get(peer)
+                .map(|context| context.addresses.addresses(limit))
+                .unwrap_or_default()
+        }
+
+        /// The transport `dial(peer)` hands `address` to (private `supported_transports_addresses`).
+        pub fn verif_route(address: &Multiaddr) -> Option<SupportedTransport> {
+            Self::supported_transports_addresses(std::slice::from_ref(address))
+                .into_keys()
+                .next()
+        }
+    }
+}
+
 /// The connection established result.
 #[derive(Debug, Clone, Copy, Eq, PartialEq)]
 enum ConnectionEstablishedResult {
